@@ -440,6 +440,30 @@ class C09Spec(CaseSpec):
         return res
 
 
+def o_c04(meta, ans, ctx):
+    k = meta.get('kind')
+    u = ctx['u']
+    if k == 'hash':
+        p = ans.split(' ')
+        ctx.setdefault('c04_hashes', {})[meta['ti']] = (p[1], p[2])
+        return None
+    if k != 'xdeser':
+        return None
+    p = ans.split(' | ')
+    if len(p) != 3: return 'shape: ' + ans[:60]
+    ta, tb = u.types[meta['ti']], u.types[meta['tj']]
+    same = ta.term() == tb.term()
+    for part, mode in ((p[1], 'full'), (p[2], 'eps')):
+        t = part.split(' ')
+        if same:
+            continue
+        if t[1] == 'ok':
+            return 'accepted: bytes written as %s accepted as %s (%s)' % (ta.rust(), tb.rust(), mode)
+        if t[1] != 'err' or t[2] not in ('typehash', 'alignhash'):
+            return 'error-kind: bytes written as %s read as %s give %s instead of a hash error (%s)' % (ta.rust(), tb.rust(), ' '.join(t[1:3]), mode)
+    return None
+
+
 def o_c08(meta, ans, ctx):
     if meta.get('kind') != 'load':
         return None
@@ -640,6 +664,7 @@ SPECS = {
     'C03': CaseSpec(o_c03, 'offsets of every borrowed part of real ε-copy results (pointer minus buffer start, printed by Show on the ε types) against the offsets of the writer blocks in the model; allocator calls and bytes during deserialize_eps for each value and for the same value with every borrowed payload repeated x4 and x16 (x2, x8, x64 thorough).'),
     'C06': CaseSpec(o_c06, 'golden corpus (147 files written by the build at claim time for the fixed corpus universe): re-serialization must reproduce the stored bytes, both deserializers must return the stored value, hash words must be the stored ones; plus bytes / hash feeds / digests of every generated type and value against the independent Lean encoder and XXH3 port.'),
     'C09': C09Spec(o_c09, 'failing loads (8 truncation points, corrupted magic / type hash, a foreign type, garbage) and succeeding loads, repeated 12 (40) times per loader under a counting global allocator and a /proc/self/maps count; 9 probe programs (one per access path) compiled against the working tree.'),
+    'C04': CaseSpec(o_c04, 'type and alignment feeds (recorded from the real type_hash / align_hash with a recording Hasher) and digests of every type of the universe, which contains for every definition without type parameters its near-miss mutants (field renamed, fields swapped, field retyped to a same-size type, copy kind toggled, repr/align changed, const renamed / value changed, variant renamed / reordered; vec / boxed slice / array / tuple variations); bytes of each type deserialized as its mutants and as other types (all near-miss pairs, 6000 sampled ordered pairs in the quick tier, all pairs in the thorough tier), both modes.'),
     'C08': CaseSpec(o_c08, 'store + load_full / load_mem / load_mmap / mmap of generated values (all 8 flag sets for a quarter of the cases in the quick tier), file lengths of every residue modulo 64 (32 in the quick tier), region range through the hook, tail bytes read back, the case moved, boxed, read from 4 threads and sent to another thread.'),
     'C18': CaseSpec(o_c18, 'serialize_with_schema of every generated value: bytes versus the plain writer, rows versus the model forest, pre-order / tiling / in-stream / zero padding / alignment invariants on the real rows, to_csv and debug under catch_unwind.'),
     'C13': CaseSpec(o_c13, 'failure at every position k in [0,len] (all k for a fifth of the types in the quick tier, boundary and sampled k for the rest) with random per-call caps and Interrupted patterns, splitting/retrying writers, flush failure, BufWriter over /dev/full; slice references and structures holding them with the allocator protecting the borrowed buffer.'),
